@@ -400,11 +400,272 @@ def r_collation(ctx, rule, tables, what):
                        "in case / trailing blanks are one row to every `%s=?` while the "
                        "server treats them as different: %s" % (
                            tname, c["name"], coll, c["name"], what))
+    # storage class: a column that receives text from a client (directly or
+    # through an attribute it was stored in) must not have a numeric affinity --
+    # SQLite would store "042" as 42 and hand back / compare the number
+    carried = text_columns(ctx.model)
+    m = 0
+    for tname in tables:
+        t = schema.tables[tname]
+        for c in t.columns:
+            if (tname, c["name"]) not in carried:
+                continue
+            m += 1
+            aff = affinity(c.get("type"))
+            if aff not in ("TEXT", "BLOB"):
+                ctx.ob(rule, "%s.%s declared %s" % (tname, c["name"], c.get("type")), False,
+                       "%s/channel-v1.sql" % "src/wormhole_mailbox_server/db-schemas",
+                       "`%s`.`%s` is declared %s (SQLite affinity %s) but receives client-"
+                       "supplied text (%s): a value that looks like a number is stored and "
+                       "compared as that number, so \"042\" and \"42\" become one value and "
+                       "what is read back is not what was submitted: %s" % (
+                           tname, c["name"], c.get("type"), aff, carried[(tname, c["name"])],
+                           what))
     ctx.ob(rule, "columns of %s compare exactly" % "/".join(tables),
            not any(o.rule == rule and not o.ok for o in ctx.obligations), "",
-           "%d columns" % n)
-    if n == 0:
-        raise AnalysisError("%s: no columns examined" % rule)
+           "%d columns, %d of them carrying client text" % (n, m))
+    if n == 0 or m == 0:
+        raise AnalysisError("%s: no columns examined (%d, %d text-carrying)" % (rule, n, m))
+
+
+def affinity(decl):
+    """SQLite's column affinity of a declared type (datatype3.html, 3.1)"""
+    if decl is None:
+        return "BLOB"
+    d = decl.upper()
+    if "INT" in d:
+        return "INTEGER"
+    if "CHAR" in d or "CLOB" in d or "TEXT" in d:
+        return "TEXT"
+    if "BLOB" in d:
+        return "BLOB"
+    if "REAL" in d or "FLOA" in d or "DOUB" in d:
+        return "REAL"
+    return "NUMERIC"
+
+
+_TEXT_COLS = {}
+
+
+def text_columns(model):
+    """(table, column) of the channel database -> where the text comes from, for
+    every column that an INSERT / UPDATE / WHERE binds to a value taken from a
+    client frame, directly or through object attributes assigned from one"""
+    if id(model) in _TEXT_COLS:
+        return _TEXT_COLS[id(model)]
+    from ..events import each_event
+    from ..interp_method import bind_statement
+    from ..terms import mentions
+    tainted = set()
+
+    def is_text(t):
+        def hit(x):
+            if x == ("param", "payload"):
+                return True
+            if x[0] == "attr" and x[1][0] == "obj" and (x[1][1], x[2]) in tainted:
+                return True
+            if x[0] == "idof" and x[1][0] == "obj" and (x[1][1], x[2]) in tainted:
+                return True
+            return False
+        return mentions(t, hit)
+
+    sets = [e for _p, e, _l in each_event(model, model.runtime_entries(), ("setattr",))
+            if e["obj"][0] == "obj"]
+    changed = True
+    while changed:
+        changed = False
+        for e in sets:
+            key = (e["obj"][1], e["attr"])
+            if key not in tainted and is_text(e["value"]):
+                tainted.add(key)
+                changed = True
+    out = {}
+    for _p, e, _l in each_event(model, model.runtime_entries(), ("sql",)):
+        if e["db"] != "chan":
+            continue
+        st = e["stmt"]
+        b = bind_statement(st, e["params"])
+        pairs = list(b["set"].items()) + [(c, t) for (c, _op, t) in b["where"]]
+        for c, t in pairs:
+            if c is None or "." in c or (st.table, c) in out:
+                continue
+            if isinstance(t, tuple) and t and t[0] != "subselect" and is_text(t):
+                out[(st.table, c)] = "bound at %s:%d" % e["site"][:2]
+    _TEXT_COLS[id(model)] = out
+    return out
+
+
+def r_present(ctx, rule, cmds, what):
+    """Whether a command carries a field is decided by membership (`"f" in msg`)
+    or a None test, never by the truth value of the field: identifiers are
+    arbitrary strings and the empty string is one of them, so `if msg.get("f")`
+    treats a command that names "" as one that names nothing."""
+    from ..events import handler_for, handler_paths
+
+    def field_tests(t):
+        while t[0] in ("not", "truth"):
+            t = t[1]
+        if t[0] in ("and", "or"):
+            for x in t[1]:
+                for y in field_tests(x):
+                    yield y
+            return
+        is_msg = lambda m: m[0] == "call" and m[1] == "json.loads"
+        if t[0] == "sub" and is_msg(t[1]) and t[2][0] == "const":
+            yield t[2][1]
+        if t[0] == "call" and t[1] == ".get" and t[2] and is_msg(t[2][0]) and \
+                len(t[2]) >= 2 and t[2][1][0] == "const":
+            yield t[2][1][1]
+    ctx.rule(rule, "the handler(s) of %s decide the presence of a field by `in` / `is None`, "
+             "not by the field's truth value" % "/".join(cmds))
+    model = ctx.model
+    n = 0
+    seen = set()
+    for c in cmds:
+        h = handler_for(model, c)
+        for p in handler_paths(model, h):
+            n += 1
+            for (tt, _b, site) in p.pc:
+                for f in field_tests(tt):
+                    if (f, site[:2]) in seen:
+                        continue
+                    seen.add((f, site[:2]))
+                    ctx.ob(rule, "%s tests the value of field %r for truth at line %d" % (
+                        h, f, site[1]), False, "%s:%d" % site[:2],
+                        "a command whose %r is the empty string (a valid identifier) is "
+                        "handled as if the field were absent: %s" % (f, what))
+    ctx.ob(rule, "field presence tests of %s" % "/".join(cmds),
+           not any(o.rule == rule and not o.ok for o in ctx.obligations), "",
+           "%d handler paths" % n)
+    ctx.require(rule, n, 1, "handler paths of %s" % "/".join(cmds))
+
+
+def r_full_loops(ctx, rule, what, only=None, minimum=3):
+    """Every loop of the expiry sweep visits all elements of what it iterates:
+    no iteration leaves the loop early (break / return) and the iterable is not
+    a slice of the collection.  A sweep that stops at the first uninteresting
+    element, or handles a bounded batch, leaves the rest of the channels
+    untreated until some later sweep."""
+    from ..events import each_event
+    from ..terms import mentions, show
+    model = ctx.model
+    ctx.rule(rule, "the loops of the expiry sweep run over whole collections: no break / "
+             "return inside, no slicing of the iterable")
+    n = 0
+    seen = set()
+    for p, e, loops in each_event(model, ["timer"], ("loop",)):
+        if not e.get("for"):
+            continue
+        if e["site"] in seen:
+            continue
+        if only is not None and not only(e):
+            continue
+        seen.add(e["site"])
+        n += 1
+        early = sorted(set(a["out"] for a in e["alts"]) & {"break", "return"})
+        sliced = e["iter"] is not None and mentions(e["iter"], lambda x: x[0] == "slice")
+        ok = not early and not sliced
+        why = ""
+        if early:
+            why = "an iteration leaves the loop by %s: the elements after it are not " \
+                "visited in this sweep: %s" % ("/".join(early), what)
+        elif sliced:
+            why = "the loop runs over %s, a slice of the collection: the rest is not " \
+                "visited in this sweep: %s" % (show(e["iter"])[:80], what)
+        ctx.ob(rule, "%s: loop at line %d" % (e["func"], e["site"][1]), ok,
+               "%s:%d" % e["site"][:2], why)
+    ctx.require(rule, n, minimum if only is None else 1, "loops in the sweep")
+
+
+def r_convert(ctx, rule, entries, what, handler=None):
+    """No text is converted to a number in the code a command (or the sweep)
+    runs, unless the conversion sits in a try that catches ValueError: names and
+    ids are arbitrary strings, `int()` / `float()` reject most of them --
+    str.isdigit() is not a sufficient guard ("\u00b2".isdigit() is true and
+    int("\u00b2") raises).  The functions looked at are those the abstract
+    paths of the given entries execute, nested functions and lambdas (sort
+    keys) included."""
+    import ast as _ast
+    from ..events import each_event, handler_of
+    model = ctx.model
+    repo = ctx.repo
+    ctx.rule(rule, "no unguarded int()/float() of non-literal text in the functions run by %s"
+             % (handler or "/".join(entries)))
+    ran = set()
+    for en in entries:
+        for p in model.paths(en):
+            if handler is not None and handler_of(p) != handler:
+                continue
+            for e, _l in _flat(p.events):
+                f = e.get("func")
+                if f:
+                    ran.add(f)
+    by_name = dict((f.qualname, f) for f in repo.all_functions())
+    n = 0
+    for q in sorted(ran):
+        fi = by_name.get(q)
+        if fi is None:
+            continue
+        n += 1
+        caught = set()
+        for t in _ast.walk(fi.node):
+            if isinstance(t, _ast.Try):
+                names = set()
+                for h in t.handlers:
+                    if h.type is None:
+                        names.add("Exception")
+                    for x in _ast.walk(h.type) if h.type is not None else ():
+                        if isinstance(x, _ast.Name):
+                            names.add(x.id)
+                if names & {"ValueError", "Exception", "BaseException"}:
+                    for b in t.body:
+                        for x in _ast.walk(b):
+                            caught.add(id(x))
+        for t in _ast.walk(fi.node):
+            if isinstance(t, _ast.Call) and isinstance(t.func, _ast.Name) and \
+                    t.func.id in ("int", "float") and t.args and id(t) not in caught:
+                a = t.args[0]
+                if isinstance(a, _ast.Constant):
+                    continue
+                # numbers stay numbers: int(time.time()), int(x // y), int(len(..))
+                if isinstance(a, (_ast.BinOp, _ast.UnaryOp)) or (
+                        isinstance(a, _ast.Call) and dotted(a.func) in (
+                            "time.time", "len", "round", "abs", "min", "max", "sum")):
+                    continue
+                ctx.ob(rule, "%s: %s(%s)" % (q, t.func.id, _ast.unparse(a)[:40]), False,
+                       "%s:%d" % (repo.modules[fi.module].path, t.lineno),
+                       "%s() of a value that is not known to be a number raises ValueError "
+                       "for most strings (and for some that str.isdigit() accepts): %s"
+                       % (t.func.id, what))
+    ctx.ob(rule, "conversions in the code run by %s" % (handler or "/".join(entries)),
+           not any(o.rule == rule and not o.ok for o in ctx.obligations), "",
+           "%d functions" % n)
+    ctx.require(rule, n, 2, "functions executed")
+
+
+def _flat(events):
+    from ..events import flat_events
+    return flat_events(events)
+
+
+def r_options(ctx, rule, what):
+    """transport options fixed in the code: anything but the keep-alive pings
+    restricts which frames the transport accepts or emits (Autobahn applies
+    payload / frame size limits to *outgoing* messages too, and fails the
+    connection on an oversized incoming one)"""
+    n = 0
+    for mod in ctx.repo.modules.values():
+        for node in ast.walk(mod.tree):
+            if isinstance(node, ast.Call) and isinstance(node.func, ast.Attribute) and \
+                    node.func.attr == "setProtocolOptions":
+                n += 1
+                extra = [k.arg for k in node.keywords
+                         if k.arg is not None and not k.arg.startswith("autoPing")]
+                ctx.ob(rule, "module %s: protocol options at line %d" % (
+                    mod.name, node.lineno), not extra, "%s:%d" % (mod.path, node.lineno),
+                    "" if not extra else "the server hard-codes %s: %s" % (
+                        ", ".join(extra), what))
+    return n
 
 
 def r_callers(ctx, rule, op, cmds, what):
